@@ -350,6 +350,19 @@ Touch(s) ==
   ELSE [s EXCEPT !.sfile = [q \in Node |-> IF q \in MembersOf(s) /\ q # s.me /\ s.next[q] <= s.li.idx /\ s.sfile[q].idx = 0
                                                THEN s.snap ELSE s.sfile[q]]]
 
+\* Where an action of the synchronous vote grain stands for a stretch of time (an election timer
+\* running out, contacts lapsing before a vote exchange), a leader's heartbeat rounds go on in the
+\* code.  Their requests are lost as far as this model is concerned, but with InstallSnapshot at
+\* request grain they leave a trace on the SENDER: the snapshot file is open for every follower
+\* that needs one and has been read to its end.
+IdleNode(s) ==
+  IF "is" \in AsyncKinds /\ s.role = "L" /\ s.li.idx > 0
+    THEN LET lag == {q \in MembersOf(s) \ {s.me} : s.next[q] <= s.li.idx} IN
+         [s EXCEPT !.sfile = [q \in Node |-> IF q \in lag /\ s.sfile[q].idx = 0 THEN s.snap ELSE s.sfile[q]],
+                   !.soff = [q \in Node |-> IF q \in lag THEN SnapSize ELSE s.soff[q]]]
+    ELSE s
+Elapse(f) == [q \in Node |-> IdleNode(f[q])]
+
 HandleIS(s, m) ==
   LET rep(st, w) == [s |-> st, reply |-> [term |-> st.term, written |-> w]] IN
   IF s.term > m.term THEN rep(s, 0)
@@ -541,7 +554,7 @@ TimerFire(n) ==
   /\ s.term < MaxTerm
   /\ Spend("timer")
   /\ LET s3 == FireNode(s, n) IN
-     /\ ns' = [ns EXCEPT ![n] = Fin(s, s3)]
+     /\ ns' = Elapse([ns EXCEPT ![n] = Fin(s, s3)])
      /\ Hist1(n, s3)
   /\ UNCHANGED net
 
@@ -570,7 +583,7 @@ RVExchange(n, p) ==
   /\ \E sticky \in IF ns[p].term > RVRequest(s, n).term /\ ~Gen THEN BOOLEAN ELSE {FALSE} :
      \E stay \in IF s.vote \notin {Nil, n} /\ ~Gen THEN BOOLEAN ELSE {FALSE} :
        LET r == RVPair(s, ns[p], n, p, sticky, stay) IN
-       /\ ns' = [ns EXCEPT ![p] = Fin(ns[p], r.h), ![n] = Fin(s, r.c)]
+       /\ ns' = Elapse([ns EXCEPT ![p] = Fin(ns[p], r.h), ![n] = Fin(s, r.c)])
        /\ Hist2(n, r.c, p, r.h)
   /\ UNCHANGED <<net, budget>>
 
@@ -586,7 +599,7 @@ RVHalf(n, p) ==
          h == HandleRV(ns[p], m, FALSE)
          c == [s EXCEPT !.asked = s.asked \cup {p}] IN
      /\ h.s # ns[p]                     \* otherwise identical to "nothing happened"
-     /\ ns' = [ns EXCEPT ![p] = h.s, ![n] = c]
+     /\ ns' = Elapse([ns EXCEPT ![p] = h.s, ![n] = c])
      /\ Hist2(n, c, p, h.s)
   /\ UNCHANGED net
 
@@ -665,6 +678,7 @@ ISExchange(n, p) ==
   LET s == ns[n] IN
   /\ n # p /\ Up(n) /\ Up(p)
   /\ s.role = "L" /\ p \in MembersOf(s)
+  /\ "is" \notin AsyncKinds
   /\ s.next[p] <= s.li.idx /\ s.li.idx > 0
   /\ ~ns[p].spub                       \* the receiver's last chunk waits for its own takeSnapshot to finish
   /\ Spend("ae")
@@ -692,7 +706,9 @@ ClientSubmit(n, v) ==
   /\ LET s1 == [s EXCEPT !.log = AppendTo(s.log, <<Entry(s.term, "op", v)>>),
                          !.pend = [i \in DOMAIN s.pend \cup {LastIdx(s.log) + 1} |->
                                      IF i = LastIdx(s.log) + 1 THEN v ELSE s.pend[i]]]
-         s2 == Touch(IF SingleServer(s1, n) THEN [s1 EXCEPT !.commit = CommitIndexOf(s1, n)] ELSE s1) IN
+         \* (the replication round a submission starts is not a step of the asynchronous grain: its
+         \* requests are lost, its trace on the sender of a snapshot remains - IdleNode)
+         s2 == IdleNode(Touch(IF SingleServer(s1, n) THEN [s1 EXCEPT !.commit = CommitIndexOf(s1, n)] ELSE s1)) IN
      /\ ns' = [ns EXCEPT ![n] = Fin(s, s2)]
      /\ Hist1(n, s2)
   /\ UNCHANGED net
@@ -756,8 +772,18 @@ ReplRound(s, n) ==
   LET k == s.hbr + 1
       s1 == [s EXCEPT !.hbr = k, !.cnt = PutF(s.cnt, <<"h", k>>, IF IsVoter(s, n) \/ "LeaderCountsItself" \in W THEN 1 ELSE 0)]
       ms == {[AERequest(s1, n, p) EXCEPT !.kind = "aeq"] @@ [to |-> p, round |-> k] :
-               p \in {q \in MembersOf(s1) \ {n} : s1.next[q] > s1.li.idx /\ Linked(n, q)}} IN
-  [s |-> s1, ms |-> ms]
+               p \in {q \in MembersOf(s1) \ {n} : s1.next[q] > s1.li.idx /\ Linked(n, q)}}
+      \* followers behind the compaction boundary get the next piece of the snapshot instead
+      \* ("is" in AsyncKinds: request grain).  sendInstallSnapshot opens the newest file if none
+      \* is open for the follower, reads from the file's position to its end into ONE request
+      \* (which leaves the position at the end) and is Done iff that was less than a chunk.
+      sq == IF "is" \in AsyncKinds /\ s1.li.idx > 0
+              THEN {q \in MembersOf(s1) \ {n} : s1.next[q] <= s1.li.idx /\ Linked(n, q)} ELSE {}
+      file(q) == IF s1.sfile[q].idx # 0 THEN s1.sfile[q] ELSE s1.snap
+      is == {[ISRequest([s1 EXCEPT !.sfile[q] = file(q)], n, q) EXCEPT !.kind = "isq"] @@ [to |-> q, round |-> k] : q \in sq}
+      s2 == [s1 EXCEPT !.sfile = [q \in Node |-> IF q \in sq THEN file(q) ELSE s1.sfile[q]],
+                       !.soff = [q \in Node |-> IF q \in sq THEN SnapSize ELSE s1.soff[q]]] IN
+  [s |-> s2, ms |-> ms \cup is]
 
 \* election(): as TimerFire, plus the requests of the round it starts
 TimerFireA(n) ==
@@ -836,6 +862,29 @@ AEHandle(m) ==
      /\ Hist1(m.to, h.s)
   /\ UNCHANGED budget
 
+\* InstallSnapshot at request grain
+ISHandle(m) ==
+  /\ m \in net /\ m.kind = "isq" /\ Up(m.to)
+  /\ ~(m.done /\ ns[m.to].spub)        \* the last chunk waits for the receiver's own takeSnapshot
+  /\ LET h == HandleIS(ns[m.to], m) IN
+     /\ ns' = [ns EXCEPT ![m.to] = Fin(ns[m.to], h.s)]
+     /\ net' = (net \ {m}) \cup {[kind |-> "isr", from |-> m.to, to |-> m.from, round |-> m.round, req |-> m, reply |-> h.reply]}
+     /\ Hist1(m.to, h.s)
+  /\ UNCHANGED budget
+
+\* sendInstallSnapshot after the RPC returned (nothing happens if the files were reset meanwhile,
+\* the node stopped leading, or the follower was removed)
+ISReply(m) ==
+  /\ m \in net /\ m.kind = "isr" /\ Up(m.to)
+  /\ LET s == ns[m.to]
+         n == m.to  p == m.from
+         live == s.role = "L" /\ s.sfile[p].idx # 0 /\ p \in MembersOf(s)
+         c == IF live THEN OnISReply(s, n, p, m.req, m.reply) ELSE s IN
+     /\ ns' = [ns EXCEPT ![n] = Fin(s, c)]
+     /\ Hist1(n, c)
+  /\ net' = net \ {m}
+  /\ UNCHANGED budget
+
 \* a round that reached its quorum confirms leadership for the reads that may be confirmed by it
 MarkVerified(s, round) ==
   [s EXCEPT !.svq = TRUE,
@@ -852,7 +901,8 @@ AEReply(m) ==
          c1 == Get(s.cnt, key, IF IsVoter(s, n) THEN 1 ELSE 0) + 1
          s0 == IF counts THEN [s EXCEPT !.cnt = PutF(s.cnt, key, c1), !.rsp = PutF(s.rsp, m.round, Get(s.rsp, m.round, {}) \cup {p})] ELSE s
          s1 == IF counts /\ Quorum(s, c1) THEN MarkVerified(s0, m.round) ELSE s0
-         c == OnAEReply(s1, n, p, m.req, m.reply)
+         c0 == OnAEReply(s1, n, p, m.req, m.reply)
+         c == IF c0.commit > s.commit THEN IdleNode(c0) ELSE c0      \* a commit starts a round as well
          \* weakening RejectRetriesInRound: a rejected request is retried at once - with the
          \* round's response counter, so that one follower is counted twice
          retry == IF "RejectRetriesInRound" \in W /\ live /\ ~m.reply.ok /\ m.reply.term <= s.term /\ c.role = "L" /\ c.next[p] > c.li.idx
@@ -902,7 +952,7 @@ Next ==
   \/ \E n, p \in Node : ISExchange(n, p)
   \/ \E n, p \in Node : RemoveServer(n, p) \/ \E voter \in BOOLEAN : AddServer(n, p, voter)
   \/ \E n \in Node : TimerFireA(n) \/ StartRound(n) \/ ClientRead(n)
-  \/ \E m \in net : RVHandle(m) \/ RVReply(m) \/ AEHandle(m) \/ AEReply(m) \/ Lose(m)
+  \/ \E m \in net : RVHandle(m) \/ RVReply(m) \/ AEHandle(m) \/ AEReply(m) \/ ISHandle(m) \/ ISReply(m) \/ Lose(m)
 
 Spec == Init /\ [][Next]_vars
 
